@@ -41,7 +41,8 @@ def buildObjs (top : Obj PK) (defs : List String) : List (Obj PK) :=
     let idx := acc.length
     match d.splitOn ":" with
     | [kind, parent, props] =>
-      let ps := ("tag", PK.val idx) :: parseProps idx props
+      let pp := parseProps idx props
+      let ps := if (pp.lookup "tag").isSome then pp else ("tag", PK.val idx) :: pp
       let nm := "T" ++ toString idx
       let o : Obj PK :=
         match kind, parent.toNat? with
@@ -99,6 +100,10 @@ def handle (args : List String) : String × String :=
       match parts with
       | ["call", i, n] => callResult (get i) n (some 9)
       | ["get", i, n] => callResult (get i) n none
+      | ["tcall", i, n] =>
+        -- `~.`: the same lookup; an error or nil result is replaced by the receiver
+        let r := callResult (get i) n (some 9)
+        if r == "err:NoPropErr" || r == "nil" then "T" ++ i else r
       | ["idx", i, n] =>
         match findProp (get i) n with
         | some (.val k) => toString k
